@@ -16,8 +16,8 @@ RULE = ("cases = operation sequences. family q (real OrderedQueue) and tq (real 
         "catch-up timer fire (detect_and_handle_gaps). quick = 700 q + 500 tq + 228 rep, thorough = 6000 + 4000 + 2460. "
         "non-trivial = a queue case with a buffered insert and a progress_to, a rep case with an applied write; distinct = distinct case strings.")
 ASSUMPTIONS = [
-    "Model/Replicator.v is hand-written from ordered_queue.rs, timeout_ordered_queue.rs, replicate.rs (after fix commits 4f5a324, 5c0162e); tie = this differential run",
-    "the database is modelled as (log, next sequence) with an oracle bit for its other checks; replicated writes carry their expected sequence, catch-up commits carry none (the code rebuilds them with ExpectedVersion::Any) - for those only the stream-version checks (C02) protect the position",
+    "Model/Replicator.v is hand-written from ordered_queue.rs, timeout_ordered_queue.rs, replicate.rs (after fix commits 4f5a324, 5c0162e and the C10 fix 28b51ee); tie = this differential run",
+    "the database is modelled as (log, next sequence) with an oracle bit for its other checks; replicated writes carry the coordinator's expected sequence and catch-up commits the sequence they have on the source (28b51ee), so the database's sequence check guards both paths",
     "executed on the real replicator: ReplicateWrite in every order, and detect_and_handle_gaps + an EMPTY PartitionSyncResponse (single node: the coordinator has nothing confirmed); the PartitionSyncResponse path WITH commits and reply-sender expiry in the replicator are covered by the proofs over the model and by the tq family (expiry at queue level), not executed end to end",
     "a dropped reply sender counts as the answer 'expired'; liveness (that the armed timer eventually fires) is tokio's",
 ]
@@ -134,6 +134,8 @@ def _mon_rep(c, o):
         if v.startswith("ok"):
             if int(v[2:]) != key: return ("applied-at-wrong-seq", f"reply {rid} for sequence {key} was acknowledged as applied at {v[2:]}")
             if (str(key), str(tx), str(max(cnt, 1))) not in log: return ("ack-without-append", f"reply {rid} acknowledged at {key} but the log has no such entry")
+        elif v == "unanswered":
+            return ("never-answered", f"reply {rid} (sequence {key}) was neither answered nor dropped: its sender never hears back")
         elif v == "pending":
             if key < nxt: return ("stale-pending", f"reply {rid} (sequence {key}) is still unanswered although the next expected sequence is {nxt}: it can never be applied or answered")
             if key == nxt: return ("not-drained", f"reply {rid} (sequence {key} = next) is buffered although its predecessor is applied")
@@ -230,5 +232,5 @@ LEVEL_TEXT = ("Machine-checked proof (Coq) over a model of OrderedQueue, Timeout
 LEVEL_NOTE = ("Trusted: Coq kernel, extraction (ExtrOcamlBasic), OCaml driver glue, Rust harness. Theorems are about Model/Replicator.v; the correspondence "
               "is sampled (bounded op sequences). Not executed end to end: PartitionSyncResponse with commits, reply expiry inside the replicator (real time). "
               "Observation, not a violation of the text: a catch-up answer aborted by a database error returns without draining, so an entry can wait AT next "
-              "until the next accepted write (C12_aborted_sync_example); catch-up commits are appended without a partition-sequence expectation.")
+              "until the next accepted write (C12_aborted_sync_example); the drain theorems therefore assume run_clean (no PartitionSyncResponse of the history was aborted half way).")
 TECHNIQUE = "Coq proof of a hand-written Gallina model + differential correspondence check (extracted OCaml model vs real Rust queues and replicator actor)"
